@@ -866,6 +866,9 @@ func (te *TemplateEngine) cloneDocument(source *Document) *Document {
 		// 如需统一行距，请在模板中显式设置，而非由代码层面硬编码。
 	}
 
+	// 渲染结果继续使用模板文档已有的列表编号定义
+	doc.numberingManager = source.numberingManager.clone()
+
 	// 复制所有文档部件，确保完整保留原文档结构
 	if doc.parts == nil {
 		doc.parts = make(map[string][]byte)
